@@ -641,3 +641,15 @@ where
         let _ = self.inner.streams.recv_eof(true);
     }
 }
+
+#[cfg(feature = "verif-hooks")]
+impl<T, P, B> Connection<T, P, B>
+where
+    T: AsyncRead + AsyncWrite + Unpin,
+    P: Peer,
+    B: Buf,
+{
+    pub(crate) fn verif_snapshot(&self) -> crate::verif::Snapshot {
+        self.inner.streams.verif_snapshot()
+    }
+}
